@@ -2,7 +2,8 @@ package main
 
 import (
 	"fmt"
-		"strings"
+	"os"
+	"strings"
 
 	"golang.org/x/tools/go/ssa"
 )
@@ -46,81 +47,81 @@ type ReplayValue struct {
 
 // Exec is one worker: an interpreter with its own solver processes.
 type Exec struct {
-	sh     *Shared
-	prog   *ssa.Program
-	cvc    *Solver
-	z3     *Solver
-	id     int
-	curH   *Harness
-	inInit int
-	propQ  int
+	sh       *Shared
+	prog     *ssa.Program
+	cvc      *Solver
+	z3       *Solver
+	id       int
+	curH     *Harness
+	inInit   int
+	propQ    int
 	posCache map[ssa.Instruction]string
 
 	// per path
-	globals  map[*ssa.Global]Ptr
-	pkgInit  map[*ssa.Package]bool
-	pc       []*Term
-	known    map[*Term]bool
-	syncedC  bool
-	syncedZ  bool
-	prefix   []int32
-	pos      int
-	trace    []int32
-	nondets  []nondetRec
-	nvars    int
-	nobj     int
-	steps    int
-	depth    int
-	regions  map[string]*Term
-	bounds   map[string]int64
-	mapOrder int // 0 insertion, 1 all
-	epoch    int
-	hfacts   []*Term // instantiated axioms for uninterpreted functions (sha256)
-	happs    []*Term
-	rfcapps  []*Term
-	mon      monitors
-	newWork  []newItem
-	rep      map[*Term]*Term
-	substMemo map[*Term]*Term
-	plainVars map[*Term]bool
-	dirty    bool
-	model    assignment
+	globals     map[*ssa.Global]Ptr
+	pkgInit     map[*ssa.Package]bool
+	pc          []*Term
+	known       map[*Term]bool
+	syncedC     bool
+	syncedZ     bool
+	prefix      []int32
+	pos         int
+	trace       []int32
+	nondets     []nondetRec
+	nvars       int
+	nobj        int
+	steps       int
+	depth       int
+	regions     map[string]*Term
+	bounds      map[string]int64
+	mapOrder    int // 0 insertion, 1 all
+	epoch       int
+	hfacts      []*Term // instantiated axioms for uninterpreted functions (sha256)
+	happs       []*Term
+	rfcapps     []*Term
+	mon         monitors
+	newWork     []newItem
+	rep         map[*Term]*Term
+	substMemo   map[*Term]*Term
+	plainVars   map[*Term]bool
+	dirty       bool
+	model       assignment
 	prefixModel assignment
-	auditCtr int
-	pathSym  bool // some property assertion on this path still contained a symbolic variable
-	panicsOK int  // >0: inside verifrt.Panics(f)
-	pending  []pendingAssert
-	snaps    []*snapNode
-	panics   []*panicState
-	syncMaps map[*Value]*Map
-	fs       *fsState
-	streams  map[*Value]*streamState
-	uuids    []*Term
-	nuuid    int
-	onceDone map[*Value]bool
+	auditCtr    int
+	pathSym     bool // some property assertion on this path still contained a symbolic variable
+	panicsOK    int  // >0: inside verifrt.Panics(f)
+	pending     []pendingAssert
+	snaps       []*snapNode
+	panics      []*panicState
+	syncMaps    map[*Value]*Map
+	fs          *fsState
+	streams     map[*Value]*streamState
+	uuids       []*Term
+	nuuid       int
+	onceDone    map[*Value]bool
 
 	// per path results (merged into the harness stats at path end)
 	res pathResult
 }
 
 type pathResult struct {
-	siteReach   map[string]int
-	siteSym     map[string]int
-	discharged  int
-	single      int
-	decisions   int
-	violations  []Violation
-	unsupported map[string]int
-	funcs       map[string]int
-	sampleSMT   string
-	stubs       map[string]int
-	rewrites    int
-	audits      int
-	auditFail   []string
-	byModel     int
-	folded      int
+	siteReach     map[string]int
+	siteSym       map[string]int
+	discharged    int
+	single        int
+	decisions     int
+	violations    []Violation
+	unsupported   map[string]int
+	funcs         map[string]int
+	sampleSMT     string
+	stubs         map[string]int
+	rewrites      int
+	audits        int
+	auditFail     []string
+	byModel       int
+	folded        int
 	monitorChecks int
-	silentWrites int
+	silentWrites  int
 }
 
 const (
@@ -283,6 +284,9 @@ func (ex *Exec) feasibleM(t *Term) (bool, assignment) {
 		ex.syncZ()
 		r = ex.z3.Check(t)
 		ex.z3.Pop()
+		if r == "unknown" && os.Getenv("VERIF_LOGUNKNOWN") != "" {
+			fmt.Fprintf(os.Stderr, "UNKNOWN-FEASIBILITY %s\n%s\n", ex.curH.Name, ex.dumpQuery(t))
+		}
 	}
 	return r != "unsat", m
 }
@@ -718,6 +722,9 @@ func (ex *Exec) assertNow(pa *pendingAssert) {
 		case "disagreement":
 			ex.addViolation(Violation{Site: pa.site, Kind: "disagreement", Msg: by, SMT: ex.dumpQuery(q)})
 		default:
+			if os.Getenv("VERIF_LOGUNKNOWN") != "" {
+				fmt.Fprintf(os.Stderr, "UNKNOWN-ASSERT %s\n%s\n", pa.site, ex.dumpQuery(q))
+			}
 			ex.addViolation(Violation{Site: pa.site, Kind: "inconclusive", Msg: "solver unknown", SMT: ex.dumpQuery(q)})
 		}
 	} else {
